@@ -86,6 +86,20 @@ func (s *istream) Close() error {
 	return s.inner.Close()
 }
 
+// hcstream: a recorded stream that can also shut down its sending side (as *net.TCPConn, *net.UnixConn and *tls.Conn can).  The
+// scripted far end takes no notice of the shutdown: it does not hang up in response, later Writes to the stream fail.
+type hcstream struct {
+	istream
+}
+
+func (s *hcstream) CloseWrite() error {
+	st := s.inner.(*stub)
+	st.mu.Lock()
+	st.failWrite = 0
+	st.mu.Unlock()
+	return nil
+}
+
 // stub: a scripted stream
 type stub struct {
 	side      int
@@ -364,6 +378,7 @@ func runBiScenario(id, run int) bool {
 		st1.together, st2.together = r.Intn(3) == 0, r.Intn(3) == 0
 		s1, s2 = st1, st2
 		meta["ends"] = []any{e1, e2, f1, f2}
+		meta["halfclose"] = []any{r.Intn(2) == 0, r.Intn(2) == 0} // which of the streams also offer CloseWrite
 	case "ownerclose": // the owner of stream `first` closes the very stream it handed to Pipe (session aborted); the far ends stay idle
 		a1, n1 := mkApp(1, 0)
 		a2, n2 := mkApp(2, 0)
@@ -393,8 +408,15 @@ func runBiScenario(id, run int) bool {
 		}
 	}
 	meta["first"] = first
-	w1 := &istream{side: 1, inner: s1, run: b}
-	w2 := &istream{side: 2, inner: s2, run: b}
+	var w1, w2 io.ReadWriteCloser = &istream{side: 1, inner: s1, run: b}, &istream{side: 2, inner: s2, run: b}
+	if hc, ok := meta["halfclose"].([]any); ok {
+		if hc[0].(bool) {
+			w1 = &hcstream{istream{side: 1, inner: s1, run: b}}
+		}
+		if hc[1].(bool) {
+			w2 = &hcstream{istream{side: 2, inner: s2, run: b}}
+		}
+	}
 	ch := tun.Pipe(w1, w2)
 	b.crew.spawn(func() {
 		n := 0
